@@ -195,7 +195,9 @@ class CHECK(Check):
                   "ThresholdOptimizer, sample_params that is no dict / names an unknown metric / holds a non-dict) forces rejection; the "
                   "constraint x objective table, the bounds/costs/weight conditions and the degenerate-label guard are generated "
                   "from the source, as are the check_is_fitted guard of every prediction entry point, the keyword values of the "
-                  "prediction-time _validate_and_reformat_input call and the sample_params checks of MetricFrame. Tie: one-defect malformed stream and valid stream through MetricFrame, the six moments' "
+                  "prediction-time _validate_and_reformat_input call and the sample_params checks of MetricFrame; the BODY of "
+                  "_validate_and_reformat_input is lifted as an ordered list of checks (condition, exception kind; label set; check_array "
+                  "keywords) which the model runs, with a proved bridge to the hand-written reading. Tie: one-defect malformed stream and valid stream through MetricFrame, the six moments' "
                   "load_data, ExponentiatedGradient/GridSearch/ThresholdOptimizer.fit, the constructors, CorrelationRemover and "
                   "predict-before-fit of every estimator, in list/ndarray/Series/DataFrame/dict containers.")
     design_ref = "DESIGN.md section 4, C20"
@@ -229,7 +231,9 @@ class CHECK(Check):
                    "before fit that does not raise NotFittedError)")
     trusted = ("sklearn check_consistent_length / check_array / check_is_fitted and pandas column assignment raise on the length "
                "mismatches they are given (modelled as a comparison of lengths)",
-               "the descriptor abstraction: a non-numeric or NaN label is sent to the model as the value 2; group labels as ids")
+               "the descriptor abstraction: a non-numeric or NaN label is sent to the model as the value 2; group labels as ids",
+               "the meaning of the lifted atoms on a descriptor (Validation.evalAtom): y is a flat numeric vector (shape test and "
+               "check_array(y) hold), features are group ids (their check_array holds), check_array(X) holds iff X has a row")
     assumptions = ("out-of-range is limited to what the documentation defines (ratio_bound in (0,1], costs, constraint_weight in "
                    "[0,1], difference_bound >= 0, ratio_bound_slack >= 0 when a ratio bound is given — a negative slack makes "
                    "project_lambda lower the Lagrangian, C07)",
@@ -353,10 +357,14 @@ class CHECK(Check):
         r = rng.random()
         if case["defect"] is None and r < 0.10:
             case["X"], case["n"], case["defect"] = [], 0, "rows0"
-            if rng.random() < 0.5:      # everything consistently empty
+            q = rng.random()
+            if q < 0.4:                 # everything consistently empty
                 case["sf"] = []
                 case["y"] = [] if rng.random() < 0.5 else None
                 case["cf"] = None
+            elif q < 0.7:               # nothing but the zero-row X (accepted by every other check when nothing is expected)
+                case["sf"], case["sf_mode"], case["y"], case["cf"] = None, rng.choice(["none", "omit"]), None, None
+                case["flags"] = [False, False, case["flags"][2]]
         elif case["defect"] is None and r < 0.18:
             case["y"], case["defect"] = [], "emptyy"
         return case
